@@ -230,6 +230,10 @@ func (st *Staged) Replay(set string, f *sym.Finding, limit time.Duration) (*Repl
 }
 
 func (st *Staged) ReplayFile(set string, path string, limit time.Duration, race bool) (*ReplayOutcome, error) {
+	return st.ReplayFileEnv(set, path, limit, race)
+}
+
+func (st *Staged) ReplayFileEnv(set string, path string, limit time.Duration, race bool, extraEnv ...string) (*ReplayOutcome, error) {
 	bin, err := st.replayBinary(set, race)
 	if err != nil {
 		return nil, err
@@ -238,7 +242,7 @@ func (st *Staged) ReplayFile(set string, path string, limit time.Duration, race 
 	defer cancel()
 	cmd := exec.CommandContext(ctx, bin, "-test.run", "^TestVsymReplay$", "-test.count=1", "-test.timeout", (limit + 5*time.Second).String())
 	cmd.Dir = filepath.Join(st.Repo, sets[set][0])
-	cmd.Env = cleanEnv("VSYM_REPLAY=" + path)
+	cmd.Env = append(cleanEnv("VSYM_REPLAY="+path), extraEnv...)
 	out, _ := cmd.CombinedOutput()
 	o := &ReplayOutcome{Output: string(out), File: path}
 	if ctx.Err() == context.DeadlineExceeded {
